@@ -6,7 +6,7 @@ import rfc8554 as R
 RULE = ("library rebuilt with the fast_verify feature under several HBS_LMS_THREADS / HBS_LMS_MAX_HASH_OPTIMIZATIONS settings; sign_mut on messages with a zero trailer for all "
         "6 hashes x W1..W8 x 1..3 levels x callback accept/reject, and on refused inputs (length <= n, non-zero trailer, malformed key); the implementation chooses the trailer, "
         "the model is given it and must reproduce signature, callback trace and message; oracle: ordinary verify accepts, only the last n bytes changed, ordinary sign of the "
-        "returned message gives the same bytes, exactly one leaf consumed, refusals consume nothing")
+        "returned message gives the same bytes, exactly one leaf consumed, refusals consume nothing; message lengths 255+n .. 131072+5")
 ASSUMPTIONS = ["real thread interleavings and data-race freedom of the crossbeam scope are not modelled (the selection loop is proved for every arrival order)",
                "the worker RNG (OsRng) is an input of the model"]
 
@@ -61,6 +61,11 @@ def run(ctx):
             reqs.append(("refuse/nonzero-trailer", k, c, sk, bytes(nz), "accept"))
             reqs.append(("refuse/badkey", k, c, sk[:-1], good, "accept"))
             reqs.append(("refuse/wiped", k, c, bytes(8) + b"\xff" * 8 + bytes(n), good, "accept"))
+        # message lengths at integer-width boundaries (a trailer offset computed in 16 bits would wrap exactly here)
+        for k in rng.sample(keys, 3 if ctx.tier == "quick" else 8):
+            c = rng.randrange(k.lifetime)
+            for total in (255 + k.n, 256 + k.n, 65535, 65536, 65536 + k.n - 1, 65536 + k.n, 65536 + 1000, 131072 + 5):
+                reqs.append(("ok/accept-long-message", k, c, k.blob(c), rng.bytes_(total - k.n) + bytes(k.n), "accept"))
         lines = ["signmut H=%s sk=%s msg=%s cb=%s" % (k.H, hx(sk), hx(m), cb) for (_, k, c, sk, m, cb) in reqs]
         answers = [canon(a) for a in ctx.hz.batch(lines)]
         model_lines, follow = [], []
